@@ -1,12 +1,11 @@
 from ..common import Ctx
 from ..image import Image
 
-_cache: dict = {}
-
 
 def image(ctx: Ctx) -> Image:
-    key = id(ctx.src)
-    if key not in _cache:
-        _cache.clear()
-        _cache[key] = Image(ctx.src)
-    return _cache[key]
+    # cached on the Sources object itself (never keyed by id(): ids are reused after garbage collection)
+    im = getattr(ctx.src, "_image", None)
+    if im is None:
+        im = Image(ctx.src)
+        ctx.src._image = im
+    return im
